@@ -216,7 +216,7 @@ func checkC02(c InstCase) Verdict {
 
 var propC02 = &Prop[InstCase]{
 	ID:   "C02",
-	Rule: "one memory operand (16-bit table shape or 32-bit base/index/scale shape x displacement boundary set or uniform x spelling variant) in a carrier instruction (MOV/ALU load, store, store-immediate, NOT, shift, PUSH, POP, LGDT) x operand width x BITS none/16/32; non-trivial = accepted without diagnostic; distinct by (mode setting, carrier, rendered statement)",
+	Rule: "one memory operand (16-bit table shape or 32-bit base/index/scale shape x displacement boundary set or uniform x spelling variant) in a carrier instruction (MOV/ALU load, store, store-immediate, NOT, shift, PUSH, POP, LGDT) x operand width x BITS none/16/32, alone or in a context (second assembly round; twin of the same text under the other mode; before the first directive of a program that later switches to 32 bits); non-trivial = accepted without diagnostic; distinct by (mode setting, carrier, rendered statement)",
 	Gen: func(t *rapid.T) InstCase {
 		cs := carriers()
 		c := cs[rapid.IntRange(0, len(cs)-1).Draw(t, "carrier")]
@@ -264,8 +264,13 @@ var propC02 = &Prop[InstCase]{
 		mode := rapid.SampledFrom([]int{0, 16, 32}).Draw(t, "mode")
 		style := rapid.IntRange(0, 7).Draw(t, "style")
 		mc := mkMemCase(mode, c, sh, d, has, reg, imm, style)
-		if rapid.IntRange(0, 3).Draw(t, "ctx") == 0 {
+		switch k := rapid.IntRange(0, 7).Draw(t, "ctx"); {
+		case k < 2:
 			mc.Ctx = "widen"
+		case k < 4 && mode != 0:
+			mc.Ctx = "twin"
+		case k < 4:
+			mc.Ctx = "prebits"
 		}
 		return mc
 	},
